@@ -246,7 +246,7 @@ def f64_impl_consts(text, consts):
 LEMIRE = ["compute_float", "compute_product_approx", "power", "zero_pow2", "biased_fp_to_float"]
 
 def check_exponents(job):
-    mir_path, exps, tmo, oblig_tmo, interpret, both, lemire_range = job
+    mir_path, exps, tmo, oblig_tmo, interpret, both, lemire_range, neg_mode = job
     text = open(mir_path).read()
     fns, consts = parse_mir(text)
     f64c = f64_impl_consts(text, consts)
@@ -276,7 +276,9 @@ def check_exponents(job):
         ctx.base = len(ctx.cons)
         f = ip.find_fn("parse_float")
         try:
-            outs = list(ip.run_fn(f, [w, e, neg, False, Opq("raw_num")], ctx))
+            if neg_mode == "false":
+                ctx.cons.append("(not %s)" % neg.s)      # sign handling is decided by the runs with a symbolic sign
+            outs = list(ip.run_fn(f, [w, e, (False if neg_mode == "false" else neg), False, Opq("raw_num")], ctx))
         except (Unsupported, PathLimit) as ex:
             res["unsupported"].append((e, str(ex)))
             continue
@@ -432,6 +434,7 @@ def main():
     ap.add_argument("--interpret", default=",".join(INTERPRET))
     ap.add_argument("--out", required=True)
     ap.add_argument("--lemire", default="", help="lo..hi: also interpret the Eisel-Lemire constructor for exponents in this range")
+    ap.add_argument("--neg", default="sym", choices=["sym", "false"], help="sign flag symbolic (default) or fixed to false")
     ap.add_argument("--both", action="store_true", help="ask both solvers on every rounding query and compare")
     ap.add_argument("--exps", default="", help="comma separated list instead of emin..emax")
     a = ap.parse_args()
@@ -445,7 +448,7 @@ def main():
     interpret = a.interpret.split(",")
     lem = [int(x) for x in a.lemire.split("..")] if a.lemire else None
     with multiprocessing.Pool(a.jobs) as pool:
-        parts = pool.map(check_exponents, [(mir_path, c, a.timeout_ms, a.oblig_timeout_ms, interpret, a.both, lem) for c in chunks if c])
+        parts = pool.map(check_exponents, [(mir_path, c, a.timeout_ms, a.oblig_timeout_ms, interpret, a.both, lem, a.neg) for c in chunks if c])
     tot = {"violations": [], "unknown": [], "errors": [], "unsupported": [], "oblig_sat": [], "oblig_unknown": {},
            "opaque_calls": set(), "interpreted": set()}
     for k in ("decided_returns", "opaque_returns", "err_returns", "paths", "oblig_unsat", "queries", "solver_s", "cache_hits"):
